@@ -53,16 +53,27 @@ func (o *orderSequenceByDependencies) nodeByFetchID(id int, root *resolve.FetchT
 }
 
 func (o *orderSequenceByDependencies) nodeDependsOn(node, root *resolve.FetchTreeNode) []int {
-	dependencies := node.Item.Fetch.Dependencies().DependsOnFetchIDs
-	result := make([]int, 0, len(dependencies))
-	for _, dep := range dependencies {
-		result = append(result, dep)
-		if child := o.nodeByFetchID(dep, root); child != nil {
-			result = append(result, o.nodeDependsOn(child, root)...)
-		}
-	}
+	result := o.collectDependencies(node, root, make(map[int]struct{}), nil)
 	slices.Sort(result)
 	result = slices.Compact(result)
+	return result
+}
+
+// collectDependencies appends the transitive dependencies of node to result. Each fetch is expanded
+// once: the planner can emit dependencies that form a cycle, and following them without remembering
+// the visited fetches recursed until the goroutine stack was exhausted, a fatal error that ends the
+// process.
+func (o *orderSequenceByDependencies) collectDependencies(node, root *resolve.FetchTreeNode, visited map[int]struct{}, result []int) []int {
+	for _, dep := range node.Item.Fetch.Dependencies().DependsOnFetchIDs {
+		result = append(result, dep)
+		if _, seen := visited[dep]; seen {
+			continue
+		}
+		visited[dep] = struct{}{}
+		if child := o.nodeByFetchID(dep, root); child != nil {
+			result = o.collectDependencies(child, root, visited, result)
+		}
+	}
 	return result
 }
 
